@@ -10,10 +10,19 @@ B_HEADER = ('From Coq Require Import ZArith NArith.\n'
 # ============================================================================= A families (token level)
 # each returns a list of (kind, text, tag)
 
+PROG_OF = {}      # (kind, text) -> the abstract program the text was rendered from
+
+
+def _reg(p, tag):
+    t = p.render()
+    PROG_OF[(p.kind, t)] = p
+    return (p.kind, t, tag)
+
+
 def famA_profile(rng, tier, kinds=gen.KINDS):
     nmax, dmax = (3, 3) if tier == 'quick' else (4, 4)
     progs = gen.family_profile(rng, nmax=nmax, dmax=dmax, kinds=kinds, random_extra=40 if tier == 'quick' else 400)
-    return [(p.kind, p.render(), 'profile%s' % (p.profile(),)) for p in progs]
+    return [_reg(p, 'profile%s' % (p.profile(),)) for p in progs]
 
 
 def famA_bigindex(rng, tier):
@@ -33,7 +42,7 @@ def famA_bigindex(rng, tier):
             if acts and rng.random() < 0.5:
                 acts[rng.randrange(len(acts))].deferred = True
             brs.append(gen.Branch('v%d' % b, acts, ('x%d' % b) if rng.random() < 0.2 else None))
-        out.append((kind, gen.Prog(kind, brs).render(), 'bigindex'))
+        out.append(_reg(gen.Prog(kind, brs), 'bigindex'))
     return out
 
 
@@ -45,8 +54,163 @@ def famA_profile_spawn(rng, tier):
     return famA_profile(rng, tier, kinds=['001', '011', '101', '111'])
 
 
-A_FAMILIES = {'profile': famA_profile, 'bigindex': famA_bigindex, 'profile_async': famA_profile_async,
+def _operands(op, rng, i):
+    n = gen.OPS[op][1]
+    shapes = ['f%d' % i, '|x| x + %d' % i, '{ let k = %d; move |x| x + k }' % i, 'g::<u8, Vec<_>>(%d)' % i, '|x| -> u8 { x }', 'obj.m%d' % i,
+              'm!(a |> b, %d)' % i, '(|x| (x > %d) | (x < 2))' % i]
+    if op in ('Dot', 'Dot2'):
+        return ['m%d()' % i]
+    if op == 'Collect':
+        return [rng.choice(['', 'Vec<_>', 'Vec<(u8, u8)>'])]
+    if op == 'Unzip':
+        return [rng.choice(['', '_, _, Vec<_>, Vec<_>'])]
+    return [rng.choice(shapes) for _ in range(n)]
+
+
+def _act(op, rng, i, deferred=False):
+    ops = [o for o in _operands(op, rng, i) if o != '']
+    a = gen.Act(op, ops, deferred=deferred)
+    if op == 'Unzip' and ops:
+        a.operands = ops
+    return a
+
+
+def famA_ops(rng, tier):
+    """every operator alone, all adjacent pairs, with and without `~`, wrappers, random chains - all 8 kinds"""
+    names = list(gen.OPS.keys())
+    out = []
+    i = 0
+    for a in names:
+        for b in names + [None]:
+            for deferred in (False, True):
+                if tier == 'quick' and b is not None and rng.random() < 0.6:
+                    continue
+                i += 1
+                acts = [_act(a, rng, i)] + ([_act(b, rng, i + 1000, deferred)] if b else [])
+                kind = rng.choice(gen.KINDS)
+                out.append(_reg(gen.Prog(kind, [gen.Branch('v', acts)]), 'ops'))
+    for w in gen.WRAPPERS:
+        for closing in ('explicit', 'step', 'end'):
+            for depth in (1, 2, 3):
+                i += 1
+                acts = []
+                for dd in range(depth):
+                    acts.append(gen.Act(rng.choice(gen.WRAPPERS) if dd else w, wrap=True))
+                    acts.append(_act(rng.choice(['Map', 'Then', 'AndThen', 'Fold']), rng, i + dd))
+                if closing == 'explicit':
+                    acts += [gen.Act(None, unwrap=True) for _ in range(depth)] + [_act('Map', rng, i + 50)]
+                elif closing == 'step':
+                    acts += [_act('Map', rng, i + 60, deferred=True)]
+                kind = rng.choice(gen.KINDS)
+                out.append(_reg(gen.Prog(kind, [gen.Branch('{ init() }', acts), gen.Branch('w', [_act('Inspect', rng, i)])]), 'ops-wrap'))
+    for _ in range(150 if tier == 'quick' else 1500):
+        i += 1
+        nb = rng.randint(1, 3)
+        brs = []
+        for b in range(nb):
+            acts = []
+            for e in range(rng.randint(0, 6)):
+                acts.append(_act(rng.choice(names), rng, i * 10 + e, deferred=rng.random() < 0.25))
+            brs.append(gen.Branch(rng.choice(['v%d' % b, '{ blk(%d) }' % b, 'Some(%d)' % b]), acts, ('x%d' % b) if rng.random() < 0.2 else None))
+        kind = rng.choice(gen.KINDS)
+        out.append(_reg(gen.Prog(kind, brs), 'ops-random'))
+    return out
+
+
+def famA_opts(rng, tier):
+    """all subsets x orders of the four options x kinds x depth shapes (single step, two steps, differing depths)"""
+    import itertools
+    opts = {'fcp': ['futures_crate_path(::futures)', 'futures_crate_path(::my::futures03)'],
+            'joiner': ['custom_joiner(my_join)', 'custom_joiner(join_all!)', 'custom_joiner(::rayon::join)'],
+            'transpose': ['transpose_results(false)', 'transpose_results(true)'],
+            'lazy': ['lazy_branches(true)', 'lazy_branches(false)']}
+    shapes = [(1, 1), (2, 2), (1, 2, 3), (3, 1), (1,), (3,)]
+    out = []
+    for r in range(0, 5):
+        for sub in itertools.combinations(sorted(opts), r):
+            for perm in itertools.permutations(sub):
+                for kind in gen.KINDS:
+                    if tier == 'quick' and rng.random() < 0.75:
+                        continue
+                    shape = rng.choice(shapes)
+                    p = gen.profile_prog(kind, shape, rng, handler=rng.random() < 0.3, lets=[b for b in range(len(shape)) if rng.random() < 0.2],
+                                         extra_ops=rng.random() < 0.5)
+                    p.options = []
+                    text_opts = ' '.join(rng.choice(opts[o]) for o in perm)
+                    t = (text_opts + ' ' if text_opts else '') + p.render()
+                    PROG_OF[(kind, t)] = p
+                    out.append((kind, t, 'opts-%d' % r))
+    return out
+
+
+def famA_handler(rng, tier):
+    """3 handler kinds x 8 macro kinds (legal and illegal) x branch counts x handler position x depth shapes"""
+    out = []
+    for kind in gen.KINDS:
+        for hk in ('map', 'and_then', 'then'):
+            for n in (1, 2, 3):
+                for pos in range(n + 1):
+                    for deep in (False, True):
+                        if tier == 'quick' and rng.random() < 0.4:
+                            continue
+                        brs = ['v%d |> f%d%s' % (b, b, (' ~|> g%d' % b) if (deep and b % 2 == 0) else '') for b in range(n)]
+                        args = ', '.join('a%d' % i for i in range(n))
+                        items = brs[:pos] + ['%s => |%s| h(%s)' % (hk, args, args)] + brs[pos:]
+                        out.append((kind, ', '.join(items), 'handler-%s' % hk))
+    return out
+
+
+def handler_legal(kind, text):
+    is_try = kind[1] == '1'
+    hk = [h for h in ('and_then', 'map', 'then') if re.search(r'(^|, )%s =>' % h, text)]
+    if not hk:
+        return None
+    return (hk[0] in ('map', 'and_then')) == is_try
+
+
+A_FAMILIES = {'opts': famA_opts, 'handler': famA_handler, 'ops': famA_ops, 'profile': famA_profile, 'bigindex': famA_bigindex, 'profile_async': famA_profile_async,
               'profile_spawn': famA_profile_spawn}
+
+
+COMB_OF = {'Dot2': 'Dot'}
+
+
+def intended(prog):
+    """what the DSL text of a generated program MEANS, independently of any parser: per branch the members (comb, deferred, mv)"""
+    out = []
+    for b in prog.branches:
+        ms = [('Initial', False, 'NoMove')]
+        for a in b.acts:
+            if a.unwrap:
+                ms.append(('UNWRAP', a.deferred, 'Unwrap'))
+            else:
+                ms.append((COMB_OF.get(a.op, a.op), a.deferred, 'Wrap' if a.wrap else 'NoMove'))
+        out.append(ms)
+    return out
+
+
+def impose_intended(prog, dump):
+    """Compares the implementation's parse dump with the intended structure and returns (differences, dump carrying the
+    INTENDED flags): the model is always run on what the program means, so a parser / accessor that misreads `~`, `>>>`
+    or an operator cannot hide behind its own dump (correspondence P-lite)."""
+    diffs = []
+    want = intended(prog)
+    brs = dump['branches']
+    if len(brs) != len(want):
+        return ['%d branches parsed, %d written' % (len(brs), len(want))], dump
+    import copy
+    d2 = copy.deepcopy(dump)
+    for bi, (b, w) in enumerate(zip(d2['branches'], want)):
+        if len(b['members']) != len(w):
+            diffs.append('branch %d: %d members parsed, %d written' % (bi, len(b['members']), len(w)))
+            continue
+        for mi, (m, (comb, deferred, mv)) in enumerate(zip(b['members'], w)):
+            got = (m['comb'], m['deferred'], m['mv'])
+            if got != (comb, deferred, mv):
+                diffs.append('branch %d member %d: parsed as %s, written %s' % (bi, mi, got, (comb, deferred, mv)))
+                if m['comb'] == comb:
+                    m['deferred'], m['mv'] = deferred, mv
+    return diffs, d2
 
 
 def dedup(cases):
@@ -59,6 +223,42 @@ def dedup(cases):
     return out
 
 
+def run_history(rng, tier, rep, distinct):
+    """C20: the same invocations expanded repeatedly, in permuted order, and concurrently from 8 threads; EVERY expansion of
+    the history is compared with the single value the model gives (correspondence A)."""
+    base = dedup([(k, t, 'history', tag) for (k, t, tag) in famA_profile(rng, 'quick') + famA_ops(rng, 'quick')])
+    rng.shuffle(base)
+    base = base[:60 if tier == 'quick' else 300]
+    hist = []
+    for rnd in range(3):                       # three passes, each in a different order, interleaved with other invocations
+        order = list(range(len(base)))
+        rng.shuffle(order)
+        hist += order
+    ids = [('h%d' % i, base[j][0], base[j][1]) for i, j in enumerate(hist)]
+    seq = jv.corr_A_gen(ids, tag='Hseq')
+    conc = jv.corr_A_gen(ids[:len(base) * 2], tag='Hconc', threads=8)
+    first = {}
+    for r, j in list(zip(seq, hist)) + list(zip(conc, hist)):
+        rep['A_cases'] += 1
+        distinct.add((r['kind'], r['text']))
+        toks = (r['impl'].get('gen') or {}).get('ok')
+        bad = None
+        if r['status'] != 'ok':
+            bad = 'expansion differs from the model value (%s)' % r['status']
+        elif r['impl'].get('concurrent_equal') is False:
+            bad = 'threads expanding the same invocation concurrently produced different text'
+        elif j in first and first[j] != toks:
+            bad = 'a later expansion of the same invocation differs from the first one'
+        first.setdefault(j, toks)
+        if bad:
+            rep['A_diffs'].append({'family': 'history', 'kind': r['kind'], 'text': r['text'], 'code': r.get('code'), 'status': bad})
+            if 'model value' not in bad or (j in first and first[j] != toks):
+                rep['witnesses'].append({'macro': gen.KIND_NAME[r['kind']], 'dsl': r['text'], 'why': bad,
+                                         'history': 'position %s of a history of %d expansions (3 shuffled passes over %d invocations, then 8 threads)' % (r['id'], len(ids), len(base))})
+    rep['families']['A:history'] = {'invocations': len(base), 'sequential_expansions': len(seq), 'concurrent_expansions_x8': len(conc)}
+    rep['samples'].append({'stage': 'A/history', 'kind': base[0][0], 'dsl': base[0][1][:200], 'expanded_times': 3 + 8})
+
+
 def run_A(fams, rng, tier, extra=None):
     cases, famof = [], {}
     for f in fams:
@@ -67,7 +267,7 @@ def run_A(fams, rng, tier, extra=None):
             cases.append((kind, text, f, tag))
     cases = dedup(cases)
     ids = [('a%d' % i, c[0], c[1]) for i, c in enumerate(cases)]
-    res = jv.corr_A_gen(ids, tag='A')
+    res = jv.corr_A_gen(ids, tag='A', fix=lambda kind, text, dump: impose_intended(PROG_OF[(kind, text)], dump) if (kind, text) in PROG_OF else ([], dump))
     for r, c in zip(res, cases):
         r['family'] = c[2]
         r['tag'] = c[3]
@@ -90,7 +290,14 @@ def famB_profile(rng, tier, kinds=('000', '010', '001', '011'), fail_rate=0.15, 
                 if rng.random() < handler_rate:
                     h = rng.choice(['map', 'and_then']) if is_try else 'then'
                 lets = [b for b in range(len(p)) if rng.random() < lets_rate]
-                progs.append(gen.typed_prog(rng, kind, p, handler=h, lets=lets, fail_rate=fail_rate, **kw))
+                if kind[0] == '1':
+                    if len(p) > 4:
+                        continue
+                    akw = {k: v for k, v in kw.items() if k in ('cap_rate', 'wrap_rate')}
+                    fr = 0.0 if kind == '111' else fail_rate     # detached tokio tasks of a failing step keep running: exercised by B4, not here
+                    progs.append(gen.typed_prog_async(rng, kind, p, handler=h, lets=lets, fail_rate=fr, **akw))
+                else:
+                    progs.append(gen.typed_prog(rng, kind, p, handler=h, lets=lets, fail_rate=fail_rate, **kw))
     return progs
 
 
@@ -138,7 +345,15 @@ def famB_pairs(rng, tier):
     return out
 
 
-B_FAMILIES = {'profile': famB_profile, 'fail': famB_fail, 'wrap': famB_wrap, 'caps': famB_caps, 'alive': famB_alive,
+def famB_profile_async(rng, tier, kinds=('100', '110', '101', '111'), **kw):
+    return famB_profile(rng, tier, kinds=kinds, **kw)
+
+
+def famB_fail_async(rng, tier):
+    return famB_profile(rng, tier, kinds=('110',), fail_rate=0.45, handler_rate=0.4, reps=2)
+
+
+B_FAMILIES = {'profile_async': famB_profile_async, 'fail_async': famB_fail_async, 'profile': famB_profile, 'fail': famB_fail, 'wrap': famB_wrap, 'caps': famB_caps, 'alive': famB_alive,
               'panic': famB_panic, 'pairs': famB_pairs}
 
 
@@ -178,7 +393,17 @@ def run_B(fams, rng, tier, name='b', fam_args=None):
         if 'ok' not in pr:
             d['compile_error'] = 'impl parse failed: %s' % json.dumps(pr)[:200]
             continue
+        pdiffs, dump2 = impose_intended(p, pr['ok'])
+        d['p_diffs'] = pdiffs
+        pr = {'ok': dump2}
         result, lg = res[c[0]]
+        if c[3] == 'async':
+            # the harness logs POLL when it starts driving the future: nothing may have been evaluated before (laziness)
+            if lg and lg[0] == 'POLL':
+                lg = lg[1:]
+            else:
+                d['eager'] = [e for e in lg[:lg.index('POLL')]] if 'POLL' in lg else lg
+                lg = [e for e in lg if e != 'POLL']
         d['observed'] = [result] + canon_log(lg)
         nm = 'c%d' % len(items)
         defs = ('Definition %s_i := %s.\nDefinition %s_t := %s.\nDefinition %s_o := %s.\nDefinition %s_g := %s.' % (
@@ -429,13 +654,20 @@ def run_property(pid, P, rng, tier, seed, escalate=False, only_B=False):
     if P.get('A') and not only_B:
         res = run_A(P['A'], rng, tier)
         for r in res:
-            rep['families'].setdefault('A:' + r['family'], collections.Counter())[r['status']] += 1
-            if r['status'] in ('ok', 'diff'):
+            rep['families'].setdefault('A:' + r['family'], collections.Counter())[r['status'].split(' ')[0]] += 1
+            if r['status'] == 'ok' or r['status'].startswith('diff'):
                 rep['A_cases'] += 1
                 if nontrivial(r['text']):
                     distinct.add((r['kind'], r['text']))
-            if r['status'] == 'diff':
+            if r['status'].startswith('diff'):
                 rep['A_diffs'].append(r)
+            if r['family'] == 'handler' and P.get('handler_oracle'):
+                legal = handler_legal(r['kind'], r['text'])
+                g = (r['impl'].get('gen') or {})
+                if legal is False and 'ok' in g:
+                    rep['witnesses'].append({'macro': gen.KIND_NAME[r['kind']], 'dsl': r['text'], 'why': 'a handler of the wrong kind for this macro is accepted (expansion produced) instead of being rejected'})
+                if legal is True and 'ok' not in g:
+                    rep['witnesses'].append({'macro': gen.KIND_NAME[r['kind']], 'dsl': r['text'], 'why': 'a legal handler is rejected: %s' % json.dumps(g)[:200]})
             elif r['status'] != 'ok':
                 # the generator produced something the implementation's parser rejects: our bug, or a parser change
                 rep['A_diffs'].append(r)
@@ -451,6 +683,11 @@ def run_property(pid, P, rng, tier, seed, escalate=False, only_B=False):
             if d['observed'] is None:
                 rejected += 1
                 c['not-compiled'] += 1
+                # programs are well typed by construction: a rejection is a broken correspondence (and, for C01, a violation)
+                rep['B_diffs'].append({'family': d['family'], 'macro': d['macro'], 'text': d['text'], 'code': -1,
+                                       'expected': 'a well-typed program compiles', 'observed': 'rejected: %s' % d['compile_error']})
+                if P.get('compile_is_property'):
+                    rep['witnesses'].append({'macro': d['macro'], 'dsl': d['text'], 'why': 'a well-typed chain expands to code that does not compile: %s' % d['compile_error']})
                 continue
             rep['B_cases'] += 1
             c[d['kind']] += 1
@@ -459,8 +696,14 @@ def run_property(pid, P, rng, tier, seed, escalate=False, only_B=False):
             if d['mm_code']:
                 rep['mm_diffs'] += 1
             bad = d['rt_code'] or d['a_code']
-            if d['a_code']:
-                rep['A_diffs'].append({'family': d['family'], 'kind': d['kind'], 'text': d['text'], 'code': d['a_code'], 'status': 'diff'})
+            if d.get('eager'):
+                rep['B_diffs'].append({'family': d['family'], 'macro': d['macro'], 'text': d['text'], 'code': -2,
+                                       'expected': 'nothing is evaluated before the future is polled', 'observed': 'before the first poll: ' + ' '.join(d['eager'])})
+                if P.get('lazy_is_property'):
+                    rep['witnesses'].append({'macro': d['macro'], 'dsl': d['text'], 'why': 'evaluated before the future was first polled: ' + ' '.join(d['eager'])})
+            if d['a_code'] or d.get('p_diffs'):
+                rep['A_diffs'].append({'family': d['family'], 'kind': d['kind'], 'text': d['text'], 'code': d['a_code'],
+                                       'status': 'diff' + (' parse: ' + '; '.join(d['p_diffs'][:3]) if d.get('p_diffs') else '')})
             if d['rt_code'] or (d['a_code'] and P.get('proj')):
                 exp = d.get('exp')
                 if not exp or not exp['spec']:
@@ -505,6 +748,18 @@ def run_property(pid, P, rng, tier, seed, escalate=False, only_B=False):
         check_macro_table(rep)
     if P.get('P') and not only_B:
         run_P(pid, P, rng, tier, rep, distinct)
+    if P.get('history') and not only_B:
+        run_history(rng, tier, rep, distinct)
+    if P.get('nocost'):
+        import nocost
+        r = nocost.run(rng, tier)
+        rep['B_cases'] += r['cases']
+        rep['b4_distinct'] = rep.get('b4_distinct', 0) + r['cases']
+        rep['families']['B:nocost'] = dict(r['dist'], failures=len(r['failures']), rejected=len(r['rejected']))
+        rep['samples'] += r['samples']
+        for f in r['failures'] + r['rejected']:
+            rep['B_diffs'].append({'family': 'nocost', 'macro': f['macro'], 'text': f['dsl'], 'code': -1, 'expected': '0 allocations / compiles and runs', 'observed': f['why']})
+            rep['witnesses'].append(f)
     if P.get('B4'):
         r4 = run_B4(pid, P, seed, tier)
         rep['B_cases'] += r4['runs']
